@@ -453,7 +453,10 @@ def binary_op(op, a, b):
             for x in (a, b):
                 if isinstance(x, float) and x == 0 and math.copysign(1.0, x) < 0:
                     return UNSPECIFIED    # the text of negative zero ('0' or '-0') is not documented
-            sa, sb = rv.string(a), rv.string(b)
+            try:
+                sa, sb = rv.string(a), rv.string(b)
+            except (ValueError, OverflowError):
+                return UNSPECIFIED    # text of a datetime at the edge of the year range: its zone offset is not computable
             if sa is UNSPECIFIED or sb is UNSPECIFIED:
                 return UNSPECIFIED
             return sa + sb
